@@ -7,7 +7,7 @@ R16.4 PutToTargetPeersContext reports success only with quorum, counts a success
 """
 import re
 from paths import refine_cuts, region_uncovered
-from common import exit_desc, short, field_calls
+from common import for_loops, exit_desc, short, field_calls
 import guards
 
 EXPLANATION = ("Error-discipline rules over all MIR CFG paths of the Kademlia event handlers: a failed attempt to contact a peer must be "
@@ -243,6 +243,51 @@ QUORUM_CONTEXTS = [
 ]
 
 
+def r16_8(ctx, fx):
+    """sibling agreement on substream bookkeeping: on_substream_open_failure finds the peer of a failed substream through
+    `pending_substreams`, so every place in Kademlia that opens a substream for a parked action records it there on the Ok edge
+    (open_substream_or_dial does; on_connection_established must too, otherwise a substream refused right after a dial is dropped and
+    its query waits until the connection closes)."""
+    n = 0
+    for key in sorted(fx.find(r"^protocol::libp2p::kademlia::Kademlia::[a-z_]+(::\{closure#0\})?$")):
+        fn = fx.fn(key)
+        opens = [c for c in fn.calls(r"TransportService::open_substream$")]
+        if not opens:
+            continue
+        ins = [c.node for c in fn.calls(r"HashMap(<.*>)?::insert$") if ".pending_substreams" in fn.recv(c)]
+        for i, c in enumerate(opens):
+            n += 1
+            ctx.bodies.add((fx.cfg, key))
+            cuts = refine_cuts(fn, c, ["Ok", "?"])
+            ends = [x for x, _ in fn.exits()] + fn.return_nodes() + [lp[0].node for lp in for_loops(fn)]
+            p = fn.witness_path([c.node], ends, avoid=ins, cut=cuts, after=True) if cuts else [c.node]
+            ctx.ob("R16.8", "%s/open_substream#%d:Ok=>recorded-in-pending_substreams" % (short(key), i), bool(ins) and p is None, site=fn.site(c.node), cfg=fx.cfg,
+                   detail="path from the Ok edge to the end of the step without pending_substreams.insert: %s" % (fn.path_sites(p) if p else None))
+    ctx.anchor("R16.8", "Kademlia: TransportService::open_substream call sites", n, 2, cfg=fx.cfg)
+
+
+def r16_9(ctx, fx):
+    """put_record_to_peers: the quorum is taken over the peers the user named.  The closure that turns the given peer ids into targets
+    may drop an id only because it is the local peer; dropping ids that are unknown to the routing table before the quorum is computed
+    lets `Quorum::All` (or `N(k)`) succeed although some of the named peers were never sent the record."""
+    ks = [k for k in fx.find(r"^protocol::libp2p::kademlia::Kademlia::run::\{closure#0\}::\{closure#\d+\}$")
+          if "Option<protocol::libp2p::kademlia::types::KademliaPeer>" in fx.fn(k).ret and fx.fn(k).calls(r"RoutingTable::entry$")]
+    ctx.anchor("R16.9", "run: closure mapping given peer ids to put targets", len(ks), 1, cfg=fx.cfg)
+    for k in ks:
+        fn = fx.fn(k)
+        ctx.bodies.add((fx.cfg, k))
+        nones = [n for n, sh in fn.exits() if any(x.startswith("None") for x in sh)]
+        local = []
+        for c in fn.calls(r"PartialEq(<.*>)?>?::eq$|::eq$"):
+            if any("local_peer_id" in x for a in c.args for x in guards.rootstrs(fn, a)):
+                for sw, t, f in fn.bool_tests(c.dest[0]):
+                    local.append((sw, t))
+        r = fn.reach([fn.entry], cut=set(local))
+        bad = [fn.site(n) for n in nones if n in r]
+        ctx.ob("R16.9", "PutRecordToPeers/named-targets-dropped-only-for-the-local-peer", bool(local) and not bad, site=fn.site(fn.entry), cfg=fx.cfg,
+               detail="None exits reachable without `peer == local_peer_id`: %s" % bad)
+
+
 def r16_4(ctx, fx):
     """sibling contexts that decide 'the requested quorum was reached' (put to given peers; put to the closest peers found): the same
     obligations are evaluated on both"""
@@ -390,3 +435,9 @@ def run(ctx):
     r16_3(ctx, fx)
     r16_4(ctx, fx)
     r16_7(ctx, fx)
+    r16_8(ctx, fx)
+    r16_9(ctx, fx)
+    # a request / query parked behind a dial is settled only if the dial's outcome is reported: the transport manager's obligations
+    # R05.9 (stated in rules/C05.py) are part of this property's argument and evaluated here too
+    import C05
+    C05.r05_9(ctx, fx, which=("Reject", "DialPeer"))
